@@ -57,3 +57,10 @@ add("C16", "bounded-exhaustive enumeration of short texts per language + Hypothe
     "separators is lexed in all 7 languages with both comment settings and compared token by token (kind, text, line, column) with "
     "Pygments' raw offset stream; location_to_index must invert every position; corpus files whole / sliced / CRLF on top.",
     "trusts Pygments' (offset, type, text) stream as the source text's tokenisation and str.count/rfind for line arithmetic")
+
+add("C01", "Hypothesis-driven grammar-based program generation in 7 languages with renderer-recorded ground truth (reference model from character spans)",
+    "4480 (thorough 56000) programs drawn from the canonical-fragment grammar (nesting to depth 5, all header shapes of DESIGN 3.1, "
+    "trivia, delimiter-bearing literals, bodies across the 15/30/60 thresholds) are analysed through scan_file (1 in 8 through "
+    "scan_path on disk) and the complete list of (name, start, end, length) is compared with spans recorded while rendering. "
+    "Every feature label must occur in a run (non-vacuity). Sampling of an unbounded grammar.",
+    "trusts the renderer's span bookkeeping (vf/gen/programs.py); speaks only about the canonical grammar of DESIGN 3.1")
